@@ -207,8 +207,35 @@ def canonical_doc(rng: random.Random, **kw):
     return canon.render(d), d
 
 
+def call_argument_on_own_line(text: str) -> str | None:
+    """`f {` ... `}` at column 0 (a call whose argument is the target set) rewritten with the
+    argument on its own line, indented: `f` / `  {` / ... / `  }`.  None when not that shape."""
+    import re
+    lines = text.split("\n")
+    last = max((i for i, ln in enumerate(lines) if ln.strip()), default=None)
+    if last is None or lines[last] != "}":
+        return None
+    head = None
+    for i, ln in enumerate(lines[:last]):
+        m = re.match(r"^([A-Za-z_][\w.']*) ((?:rec )?\{)$", ln)
+        if m and m.group(1) not in ("let", "in", "rec"):
+            head = (i, m)
+    if head is None:
+        return None
+    i, m = head
+    if any("''" in ln for ln in lines[i:last]):
+        return None
+    new = lines[:i] + [m.group(1), "  " + m.group(2)] + [("  " + ln) if ln.strip() else ln for ln in lines[i + 1:last + 1]] \
+        + lines[last + 1:]
+    return "\n".join(new)
+
+
 def noncanonical_variant(rng: random.Random, text: str) -> str:
     """Same document with non-RFC whitespace (still line comments only)."""
+    if rng.random() < 0.3:
+        alt = call_argument_on_own_line(text)
+        if alt is not None and not cst.has_error(alt):
+            text = alt
     out = []
     for line in text.split("\n"):
         if rng.random() < 0.25 and line.strip() and not line.lstrip().startswith("#") \
